@@ -1,3 +1,5 @@
+use std::panic::{catch_unwind, AssertUnwindSafe};
+
 use bgpfu::RpslEvaluator;
 use ip::traits::PrefixSet;
 
@@ -36,19 +38,30 @@ impl Evaluate for Candidate {
             %self.filter_expr,
             "trying to evaluate filter expression"
         );
-        let ranges = evaluator
-            .evaluate(self.filter_expr.clone())
-            .map_err(|err| {
+        // Some valid RPSL constructs (PeerAS, AS-path regexps, attribute matches) are not supported
+        // by the evaluator yet and panic: that must only fail this policy, not the whole run.
+        let ranges = match catch_unwind(AssertUnwindSafe(|| {
+            evaluator.evaluate(self.filter_expr.clone())
+        })) {
+            Ok(Ok(set)) => {
+                let (ipv4, ipv6) = set.as_partitions();
+                Some((ipv4.ranges().collect(), ipv6.ranges().collect()))
+            }
+            Ok(Err(err)) => {
                 tracing::error!(
                     "failed to evaluate filter expression {}: {err:#}",
                     self.filter_expr,
                 );
-            })
-            .map(|set| {
-                let (ipv4, ipv6) = set.as_partitions();
-                (ipv4.ranges().collect(), ipv6.ranges().collect())
-            })
-            .ok();
+                None
+            }
+            Err(_) => {
+                tracing::error!(
+                    "evaluation of filter expression {} panicked",
+                    self.filter_expr,
+                );
+                None
+            }
+        };
         Evaluated {
             filter_expr: self.filter_expr,
             ranges,
